@@ -114,8 +114,9 @@ const TYPES: [&str; 11] = [
 fn signature(op: &str) -> Option<&'static str> {
     Some(match op {
         "setup_new" | "srv_reg_finish" | "ke_pub" | "ke_derive" | "ke_sk" | "ke_pk"
-        | "ke_random_sk" => "b",
-        "reg_start" | "login_start" | "srv_login_finish" | "ke_dh" => "bb",
+        | "ke_random_sk" | "p_hash" | "p_sinv" => "b",
+        "reg_start" | "login_start" | "srv_login_finish" | "ke_dh" | "p_hmac" | "p_h2g" | "p_h2s" | "p_smul" => "bb",
+        "p_expand" => "bbi",
         "srv_reg_start" => "bbb",
         "reg_finish" => "bbbbook",
         "srv_login_start" => "bbobbooo",
@@ -778,6 +779,46 @@ macro_rules! suite {
                         let mut rng = tape(a[0])?;
                         let sk = <KG as KeGroup>::random_sk(&mut rng);
                         vec![hx(&<KG as KeGroup>::serialize_sk(sk)), rng.pos.to_string()]
+                    }
+                    // ---- primitives of the OPRF suite (hash, HMAC, HKDF-Expand from a PRK, hash-to-group,
+                    // hash-to-scalar, scalar multiplication and inversion), for validating the model's primitive layer
+                    "p_hash" => vec![hx(&<OH as digest::Digest>::digest(bytes(a[0])?))],
+                    "p_hmac" => {
+                        use hmac::Mac;
+                        let mut m = <hmac::Hmac<OH> as Mac>::new_from_slice(&bytes(a[0])?)
+                            .map_err(|_| Fail::Err("Lib:HmacError".into()))?;
+                        m.update(&bytes(a[1])?);
+                        vec![hx(&m.finalize().into_bytes())]
+                    }
+                    "p_expand" => {
+                        let n = int(a[2])? as usize;
+                        let mut out = vec![0u8; n];
+                        let hk = hkdf::Hkdf::<OH>::from_prk(&bytes(a[0])?)
+                            .map_err(|_| Fail::Err("Lib:HkdfError".into()))?;
+                        hk.expand(&bytes(a[1])?, &mut out).map_err(|_| Fail::Err("Lib:HkdfError".into()))?;
+                        vec![hx(&out)]
+                    }
+                    "p_h2g" => {
+                        let e = <OG as voprf::Group>::hash_to_curve::<OH>(&[&bytes(a[0])?], &[&bytes(a[1])?])
+                            .map_err(|_| Fail::Err("Lib:OprfInternalError:Input".into()))?;
+                        vec![hx(&<OG as voprf::Group>::serialize_elem(e))]
+                    }
+                    "p_h2s" => {
+                        let s_ = <OG as voprf::Group>::hash_to_scalar::<OH>(&[&bytes(a[0])?], &[&bytes(a[1])?])
+                            .map_err(|_| Fail::Err("Lib:OprfInternalError:Input".into()))?;
+                        vec![hx(&<OG as voprf::Group>::serialize_scalar(s_))]
+                    }
+                    "p_smul" => {
+                        let e = <OG as voprf::Group>::deserialize_elem(&bytes(a[0])?)
+                            .map_err(|_| Fail::Err("Arg1:Lib:OprfError:Deserialization".into()))?;
+                        let s_ = <OG as voprf::Group>::deserialize_scalar(&bytes(a[1])?)
+                            .map_err(|_| Fail::Err("Arg2:Lib:OprfError:Deserialization".into()))?;
+                        vec![hx(&<OG as voprf::Group>::serialize_elem(e * &s_))]
+                    }
+                    "p_sinv" => {
+                        let s_ = <OG as voprf::Group>::deserialize_scalar(&bytes(a[0])?)
+                            .map_err(|_| Fail::Err("Arg1:Lib:OprfError:Deserialization".into()))?;
+                        vec![hx(&<OG as voprf::Group>::serialize_scalar(<OG as voprf::Group>::invert_scalar(s_)))]
                     }
                     "lens" => [
                         <OH as digest::Digest>::output_size(),
